@@ -37,7 +37,7 @@ func isMisconfig(cause string) bool { return len(cause) > 9 && (cause[:9] == "ss
 func genC08(rt *rapid.T) c08Case {
 	c := c08Case{Cause: pick(rt, "cause", c08Causes), Load: pick(rt, "load", []string{"idle", "saturated"}),
 		DelayMs: rapid.IntRange(0, 300).Draw(rt, "delay"), Prefix: rapid.IntRange(0, 5).Draw(rt, "prefix")}
-	c.Flags = pick(rt, "flags", []string{"", "", "audit-metrics", "healthz", "metrics"})
+	c.Flags = pick(rt, "flags", []string{"", "", "audit-metrics", "healthz", "metrics", "log-debug"})
 	partialOK := map[string]bool{"sigterm": true, "sigint": true, "sshd_eof": true, "audit_eof": true, "malformed_audit": true}
 	if partialOK[c.Cause] && rapid.IntRange(0, 3).Draw(rt, "partial") == 0 {
 		c.Connect = pick(rt, "connect", []string{"sshd_only", "audit_only", "none"})
@@ -79,6 +79,8 @@ func execC08(c c08Case) Outcome {
 		o.Extra = []string{"-healthz"}
 	case "metrics":
 		o.Extra = []string{"-metrics"}
+	case "log-debug":
+		o.Extra = []string{"-log-level", "debug"}
 	}
 	if c.Flags == "healthz" || c.Flags == "metrics" {
 		// the HTTP server binds :2112 — one daemon at a time on this host
@@ -430,6 +432,7 @@ func TestC08_Enum(t *testing.T) {
 		for _, fc := range []c08Case{
 			{Cause: "sshd_eof", Flags: "audit-metrics"}, {Cause: "malformed_audit", Flags: "audit-metrics"}, {Cause: "sigterm", Flags: "audit-metrics"},
 			{Cause: "audit_eof", Flags: "healthz"}, {Cause: "sigint", Flags: "healthz"}, {Cause: "sshd_eof", Flags: "metrics"},
+			{Cause: "sigterm", Flags: "log-debug"}, {Cause: "malformed_audit", Flags: "log-debug"}, {Cause: "sshd_eof", Flags: "log-debug"},
 		} {
 			n++
 			if n%sn != si {
